@@ -44,7 +44,12 @@ def _fhs(s):
 
 
 def _run(cmd, env, timeout=1500):
-    return subprocess.run(cmd, stdout=subprocess.PIPE, stderr=subprocess.PIPE, text=True, env=env, timeout=timeout)
+    try:
+        return subprocess.run(cmd, stdout=subprocess.PIPE, stderr=subprocess.PIPE, text=True, env=env, timeout=timeout)
+    except subprocess.TimeoutExpired as ex:
+        # a timed-out stage is reported as a crashed stage (rc 124); the failures collected so far are kept
+        out = ex.stdout.decode() if isinstance(ex.stdout, bytes) else (ex.stdout or "")
+        return subprocess.CompletedProcess(cmd, 124, out, f"timeout after {timeout} s")
 
 
 def _last_json(text):
@@ -122,7 +127,7 @@ def corr(seed, tier):
             else:
                 for k, v in rep["strata"].items():
                     strata["fit1d/" + k] = v
-                m = _run([drv, f1], env)
+                m = _run([drv, f1], env, timeout=300)
                 if m.returncode != 0:
                     problems.append({"kind": "model-driver-crashed", "stage": "fit1d", "tail": (m.stdout + m.stderr)[-1500:]})
                 else:
@@ -157,7 +162,7 @@ def corr(seed, tier):
                 stats["misc_fail_by_key"] = rep.get("fail_by_key")
                 failures += rep.get("failures", [])
                 samples += rep.get("samples", [])[:3]
-                m = _run([drv, f3], env)
+                m = _run([drv, f3], env, timeout=300)
                 if m.returncode != 0:
                     problems.append({"kind": "model-driver-crashed", "stage": "misc", "tail": (m.stdout + m.stderr)[-1500:]})
                 else:
